@@ -117,8 +117,18 @@ def gen_c17(rnd, n, thorough=False):
                 lines += fill_ops(rnd, 's/i1/f%d.wsp' % j, layout, rnd.pick(METHODS), rnd.pick([0, 0x3f000000, 0x3e800000]), density=0.7, inconsistent=False)
             for j, v in enumerate([1e16, -1e16, 1.0]):
                 lines += ["open s/i1/f%d.wsp" % j, "many s/i1/f%d.wsp 0 @ 1 @-%d %016x" % (j, layout[0][0], fbits(v)), "sync s/i1/f%d.wsp" % j, "drop s/i1/f%d.wsp" % j]
+            fresh = rnd.chance(0.5)
+            if fresh:
+                # the first file in glob order was never written (its archives read as all-NaN): the sum
+                # must not change what any later read of a never-written archive returns
+                lines += ["create s/i1/a0.wsp %s m 2 x 3f000000" % fmt_layout(layout), "sync s/i1/a0.wsp", "drop s/i1/a0.wsp",
+                          "create s/i2/z.wsp %s m 2 x 3f000000" % fmt_layout(layout), "sync s/i2/z.wsp", "drop s/i2/z.wsp"]
             held = rnd.randrange(nfiles)
             lines.append("clisum base=s item=i1 src=*.wsp from=0 until=0 archive=-1 header=1 hold=s/i1/f%d.wsp:%d" % (held, rnd.pick([100, 300])))
+            if fresh:
+                lines.append("cliview src=s:i2/z.wsp from=0 until=0 archive=-1 header=0")
+                lines.append("clisum base=s item=i1 src=*.wsp from=0 until=0 archive=-1 header=1")
+                lines.append("cliview src=s:i1/a0.wsp from=0 until=0 archive=-1 header=0")
         else:
             layout = CLI_LAYOUTS[rnd.pick(['two_1s', 'three_2s'])]
             for j in range(3):
